@@ -205,7 +205,7 @@ def ob_allow_list(report):
 
             def status_of(v):
                 st = v.get_ov('status') if isinstance(v, Sym) else None
-                return st.variant if isinstance(st, Agg) else None
+                return (st.variant or st.name) if isinstance(st, Agg) else None      # (enum tables come from the source; a macro-generated enum shows as a bare variant name)
             if ret.variant == 'Ok':
                 cond = z3.And(has, member)
                 cls = 'accept'
